@@ -67,7 +67,7 @@ fn close_ip(ip: Ipv4Addr, rng: &mut Rng) -> Ipv4Addr {
         3 => u32::from_be_bytes([o[3], o[2], o[1], o[0]]),
         4 => u32::from_be_bytes([o[1], o[0], o[3], o[2]]),
         5 => (v & 0xffff_ff00) | rng.usize(256) as u32,
-        6 => *rng.pick(&[0u32, 0xffff_ffff, 0x0100_0000, 0x7f00_0001]),
+        6 => *rng.pick(&[0x0000_0001u32, 0xffff_fffe, 0x0100_0000, 0x7f00_0001]), // not 255.255.255.255: a reply to the broadcast address is refused by the OS (and by SimNet)
         _ => v ^ (3 << rng.usize(31)),
     };
     let c = if c == v { v ^ 2 } else { c };
